@@ -186,6 +186,7 @@ def run(ctx):
         "samples": rep["samples"][:3] or [{"note": "no sample"}],
         "oracle_evaluations": rep["evaluations"], "oracle_skipped": rep.get("skipped", {}),
         "correspondence_cases": corr["cases"], "correspondence_mismatches": len(corr["mismatches"]),
+        "documents_in_theorem_domain": f"{ctx.domain[0]} of {ctx.domain[1]} correspondence pairs are well-formed and closed (hypotheses of C12_identity / C12_total)" if ctx.domain[1] else "n/a",
         "correspondence_projection": cfg["proj"] or "report cases (text lines, breaking lines, JSON count, three exit flags)",
         "input_distribution": rep["coverage"], "corr_input_distribution": corr.get("coverage", {}),
         "known_findings_seen": {k: c for k, (_, c) in known_seen.items()},
